@@ -709,6 +709,17 @@ func (se *symExec) execAssign(x *ast.AssignStmt, st *sstate) []*sstate {
 			if obj == nil || se.assignCount(obj) != 1 {
 				continue
 			}
+			if b, ok := obj.Type().Underlying().(*types.Basic); ok && b.Kind() == types.String && se.tableMode && callFree(x.Rhs[i]) {
+				// a string computed once from plain operands (`toCompile := r.previous + line`) is shown as that expression
+				if _, taken := se.params[obj]; !taken {
+					t := se.canon(x.Rhs[i])
+					if _, isBin := unparen(x.Rhs[i]).(*ast.BinaryExpr); isBin {
+						t = "(" + t + ")"
+					}
+					se.params[obj] = t
+				}
+				continue
+			}
 			if !isPurePath(x.Rhs[i]) {
 				// `last := is[len(is)-1]`: an element or field selected from values that are never assigned
 				// again is that selection under another name
@@ -869,6 +880,26 @@ func strConstText(quoted string) string {
 	h := fnv.New32a()
 	h.Write([]byte(quoted))
 	return fmt.Sprintf("%s…#%08x\"", quoted[:32], h.Sum32())
+}
+
+// callFree: the expression contains no call other than conversions.
+func callFree(e ast.Expr) bool {
+	ok := true
+	ast.Inspect(e, func(n ast.Node) bool {
+		if call, isCall := n.(*ast.CallExpr); isCall {
+			if len(call.Args) == 1 {
+				switch f := unparen(call.Fun).(type) {
+				case *ast.Ident:
+					if f.Name == "string" || f.Name == "int" || f.Name == "rune" || f.Name == "byte" {
+						return true
+					}
+				}
+			}
+			ok = false
+		}
+		return ok
+	})
+	return ok
 }
 
 func isPurePath(e ast.Expr) bool {
